@@ -116,6 +116,12 @@ def job_interior(job, cls, nx):
             job.errors.append(f"{cls} nx={nx} interior raised {pr.exc!r}")
             continue
         r, fluid, t, calls = pr.value
+        if len(calls) != 2:
+            # the code did not take one implicit step per time increment on this path (a shortcut, an early exit, a
+            # re-used solution): the scheme is then not the documented one on the grids that reach this path
+            job.prove(f"L1/{cls}[nx={nx}]: {len(calls)} implicit steps taken for 2 time increments[path{k}]", pr.pc, bound=f"nx={nx}",
+                      replay=(replay_rows, {"cls": cls, "nx": nx, "nt": 3, "schedule": False}))
+            continue
         c = calls[1]                       # step 1 -> 2: the previous level is u(., t_1)
         dt = t.d[2] - t.d[1]
         A, b = c["A"].rows, c["b"]
